@@ -175,7 +175,7 @@ func (p *Program) scanExtCalls(sc *Scan, o *Obl, res *UnitResult, allowed map[st
 			if j := strings.Index(pt, ".("); j >= 0 {
 				pp, pn = pt[:j], pt[j+1:]
 			}
-			if pp == pkg && (pn == "*" || pn == name) {
+			if pp == pkg && (pn == "*" || pn == name || (strings.HasSuffix(pn, "*") && strings.HasPrefix(name, strings.TrimSuffix(pn, "*")))) {
 				return true
 			}
 		}
